@@ -17,23 +17,24 @@ PROCS = ["p1", "p2", "p3"]
 C14_INVS = ["MutualExclusion", "HolderHasLock", "OneBuild", "MarkerImpliesComplete", "LoadPointComplete",
             "SameObjects", "ReturnedLoaded", "Reuse", "NoHang", "NoTimeoutWhenTimely"]
 C15_INVS = ["FailureReleasesLock", "GlobalStateRestored", "MarkerImpliesComplete", "LoadPointComplete",
-            "NoHang", "ReturnedLoaded"]
+            "NoHang", "ReturnedLoaded", "UnfaultedNeverFails"]
 ACTION_PROPS = ["NoPartialLoad", "NextBuildsAfresh"]
 # which observed property names belong to which listed property
 OWNER = {"MutualExclusion": "C14", "OneBuild": "C14", "MarkerImpliesComplete": "C14", "LoadPointComplete": "C14",
          "SameObjects": "C14", "ReturnedLoaded": "C14", "Reuse": "C14", "NoHang": "C15", "NoPartialLoad": "C14",
          "ResultsCorrect": "C14", "FailureReleasesLock": "C15", "GlobalStateRestored": "C15",
-         "NextBuildsAfresh": "C15"}
+         "NextBuildsAfresh": "C15", "UnfaultedNeverFails": "C15"}
 
 
 def cfg(procs=3, keys=1, max_polls=2, max_req=5, max_kills=1, max_fails=1, fixed=True, timely=False,
-        invs=None, props=None, spec="Spec", view=True, strings=False):
+        invs=None, props=None, spec="Spec", view=True, strings=False, fixed_marker=True):
     q = (lambda s: f'"{s}"') if strings else (lambda s: s)
     ps = ", ".join(q(f"p{i + 1}") for i in range(procs))
     ks = ", ".join(q(f"k{i + 1}") for i in range(keys))
     lines = [f"SPECIFICATION {spec}", "CONSTANTS", f"  Proc = {{{ps}}}", f"  Key = {{{ks}}}",
              f"  MaxPolls = {max_polls}", f"  MaxReq = {max_req}", f"  MaxKills = {max_kills}",
              f"  MaxFails = {max_fails}", f"  FixedHandlers = {'TRUE' if fixed else 'FALSE'}",
+             f"  FixedMarker = {'TRUE' if fixed_marker else 'FALSE'}",
              f"  Timely = {'TRUE' if timely else 'FALSE'}"]
     if view:
         lines.append("VIEW view")
@@ -266,6 +267,10 @@ def normalise(trace, procs, keys):
             act = "LoadBuilder" if a["role"] == "builder" else "LoadWaiter"
         elif e == "exists" and a.get("file") != "cached":
             act = "other"
+        elif e == "exists" and a.get("role") == "builder":
+            act = "CheckMarker"
+        elif e in ("replace", "rename") and a.get("dst") == "cached":
+            act = "WriteMarker"
         elif e == "replace" and not (a.get("file") == "c" and a.get("dst") == "failed"):
             act = "other"
         else:
@@ -330,7 +335,7 @@ def first_violations(v):
 # ---------------------------------------------------------------------------
 # the two checks built on this engine
 
-CRASH_POINTS = ["trylock", "gen", "ccsrc", "ccobj", "link", "linking", "mark", "bload", "frename",
+CRASH_POINTS = ["trylock", "gen", "ccsrc", "ccobj", "link", "linking", "mark", "publish", "bload", "frename",
                 "poll", "sleep", "wload", "ret", "raise_fail", "raise_timeout"]
 
 
@@ -406,7 +411,7 @@ def run_check(chk, own):
         r = design_must_hold(chk, "c14-faulty", coverage=True, procs=3, keys=1, max_polls=2, max_req=4 if quick else 5,
                              max_kills=1, max_fails=1)
         dead = [a for a, (d, t) in r.coverage.items() if t == 0 and a in
-                ("TryLock", "Codegen", "CcSource", "CcObject", "LinkBegin", "LinkEnd", "WriteMarker", "LoadBuilder",
+                ("TryLock", "Codegen", "CcSource", "CcObject", "LinkBegin", "LinkEnd", "CheckMarker", "WriteMarker", "LoadBuilder",
                  "FailRename", "Poll", "Sleep", "LoadWaiter", "Return", "Kill", "Request")]
         if dead:
             raise MachineryError(f"vacuity: actions never taken: {dead}")
@@ -436,7 +441,7 @@ def run_check(chk, own):
             design_must_hold(chk, "c15-2keys", procs=3, keys=2, max_polls=2, max_req=3, max_kills=1, max_fails=1, timeout=5400)
         # fault enumeration by TLC: the shortest behaviour reaching each crash point / failure kind
         targets = [(f"kill@{x}", f'NeverKilledAt("{x}")') for x in CRASH_POINTS] + \
-                  [(f"fail:{f}", f'NeverFails("{f}")') for f in ("codegen", "cc", "link")]
+                  [(f"fail:{f}", f'NeverFails("{f}")') for f in ("codegen", "cc", "link", "marker")]
         later1 = [["req", "k1", "none"], ["drain"]]
         tails = [later1 + later1]
         if not quick:
@@ -446,7 +451,7 @@ def run_check(chk, own):
         tj, unreachable, gen = target_schedules(targets, tails=tails)
         if unreachable:
             raise MachineryError(f"fault targets unreachable in JitCache.tla: {unreachable}")
-        chk.add(transitions=gen, crash_points=len(CRASH_POINTS), fault_kinds=3, later_request_tails=len(tails))
+        chk.add(transitions=gen, crash_points=len(CRASH_POINTS), fault_kinds=4, later_request_tails=len(tails))
         if not quick:
             tj3, unr3, gen3 = target_schedules([("markerclash", "NeverMarkerClash")])
             chk.note(f"WriteMarker never finds an existing marker (design): unreachable={unr3}")
